@@ -9,7 +9,13 @@ pub fn dispatch(ctx: &Ctx) -> i32 {
         "C01" => e1::check_file_prop(ctx, e1::FileProp::C01),
         "C15" => e1::check_c15(ctx),
         "C08" => e1::check_c08(ctx),
-        "C02" => combine(ctx, e1::collect_file_prop(ctx, e1::FileProp::C02), frag::collect(ctx, "C02")),
+        "C02" => {
+            let (mut t, mut m) = e1::collect_file_prop(ctx, e1::FileProp::C02);
+            t.merge(e1::scaling_part(ctx, e1::FileProp::C02));
+            t.merge(faults::retry_part(ctx));
+            m.rule = format!("{} Plus the scaling family of C01 (long tables, large samples, look-alike values) and, on a scripted sink, every representative history x failure at every write call x every error kind x three finish attempts: whenever a finish reports success the sink must hold one well-formed file.", m.rule);
+            combine(ctx, (t, m), frag::collect(ctx, "C02"))
+        }
         "C03" => timing::check_c03(ctx),
         "C04" => contract::check(ctx, contract::Which::C04),
         "C05" => combine(ctx, contract::collect(ctx, contract::Which::C05), frag::collect(ctx, "C05")),
@@ -47,7 +53,7 @@ pub fn replay(prop: &str, case: &serde_json::Value) -> i32 {
         Some("E1") => e1::replay(prop, case),
         Some("contract") => contract::replay(prop, case),
         Some("E5") => frag::replay(prop, case),
-        Some("E3") => faults::replay(case),
+        Some("E3") | Some("E3-c02") => faults::replay(case),
         Some(e) if e.starts_with("E2-c07") => codeccfg::replay(case),
         Some(e) if e.starts_with("E2-c12") => nopanic::replay(case),
         Some(e) if e.starts_with("E2-c16") => widths::replay(case),
